@@ -125,7 +125,7 @@ class Sandbox:
         os.close(fd)
         pc, cc = self.ctx.Pipe(duplex=True)
         self.proc = self.ctx.Process(target=_child_loop, args=(self.check, self.env, cc, self.dumpfile, self.timeout))
-        self.proc.daemon = True
+        self.proc.daemon = False  # checks may exercise process-based workers of their own
         self.proc.start()
         cc.close()
         self.conn = pc
